@@ -27,3 +27,17 @@ Definition coveredb (s : spec) (x : sentence) : bool :=
   end.
 Definition kcase_in_scope (c : kcase) : bool :=
   let s := k_spec c in forallb (coveredb s) (sentences s) && separated s (universe s).
+
+(* scope of the theorem WITH single-clause derived definitions (Cnl/CoreStableDef.v) *)
+Require Import Cnl2aspV.Cnl.CoreStableDef Cnl2aspV.Cnl.CoreExact.
+Definition def1b (s : spec) (x : sentence) : bool :=
+  match x with
+  | SDef subj label p [cl] =>
+      String.eqb subj (cl_subj cl) && String.eqb label (cl_slabel cl) && negb (String.eqb (cl_slabel cl) (cl_olabel cl)) &&
+      declaredb s subj && declaredb s (cl_obj cl)
+  | _ => false end.
+Definition kcase_in_scope_defs (c : kcase) : bool :=
+  let s := k_spec c in
+  forallb (fun x => coveredb s x || def1b s x) (sentences s) && separated_d s (universe s) &&
+  nodupb (flat_map def_pred (sentences s)) && forallb no_paren (flat_map def_pred (sentences s)) &&
+  nodupb (concept_names s) && forallb no_paren (concept_names s).
